@@ -31,6 +31,7 @@ class Hist:
         r = self.r
         self.shadow = ["doc"]
         self.with_ns = r.random() < 0.25
+        self.samelocal = []    # elements parsed with p:x and q:x (one local part twice)
 
         def elem(depth, parent=0):
             name = r.choice(["r", "a", "b", "c"])
@@ -46,6 +47,7 @@ class Hist:
             if getattr(self, "with_ns", False) and r.random() < 0.35:
                 # two attributes with one local part under different prefixes (only a parsed document can hold them:
                 # the DOM addresses attributes by local part)
+                self.samelocal.append(me)
                 for an in ("p:x", "q:x"):
                     used.add(an)
                     used.add("x")
@@ -206,6 +208,18 @@ class Hist:
                 return ["sa:%s:%s:%s" % (self.h(e1), nm, v), "sa:%s:%s:%s" % (self.h(e2), nm, v),
                         "ga:%s:%s" % (self.h(e1), nm), "ga:%s:%s" % (self.h(e2), nm),
                         r.choice(["ran:%s:%s", "san:%s:%s"]) % (self.h(e1), self.h(n + 1)), "ran:%s:%s" % (self.h(e2), self.h(n + 1))]
+        if k < 0.94 and getattr(self, "samelocal", None):
+            # an element that holds two attributes of one local part: address the SECOND (or the first) by qualified name
+            e = r.choice(self.samelocal)
+            qn = r.choice(["q:x", "q:x", "p:x", "x"])
+            kk = r.random()
+            if kk < 0.5:
+                return ["sa:%s:%s:%s" % (self.h(e), enc2(qn), r.choice(["3", "v"]))]
+            if kk < 0.75:
+                n = len(self.shadow)
+                self.shadow.append("attr")
+                return ["ca:" + enc2(qn), "san:%s:%s" % (self.h(e), self.h(n))]
+            return ["ra:%s:%s" % (self.h(e), enc2(r.choice(["x", "q:x"]))), "sa:%s:%s:%s" % (self.h(e), enc2(qn), "4")]
         # deleting exactly the characters that keep a forbidden sequence apart
         cs = [h for h, kind in enumerate(self.shadow) if kind in ("comment", "cdata")]
         if cs:
